@@ -524,7 +524,7 @@ theorem Sync.write {K0 : Console} {t t' : VT} (s : Sync K0 t) {b fg bg : UInt8} 
     obtain ⟨w1, w2, w3, w4, w5⟩ := write_in s.wf b fg bg hxk hyk
     have e : K0.applyLog t'.out = (K0.applyLog t.out).write b fg bg cx cy := by rw [ho']; rfl
     refine ⟨by rw [e, w1, hw]; exact s.w, by rw [e, w2, hh]; exact s.h, by rw [e]; exact w3,
-      by rw [e, w4]; exact s.outside, ?_, ?_⟩
+      by rw [e, w4]; exact s.outside, ?_, ?_, ?_⟩
     · intro c hc
       rw [ho'] at hc
       rw [hw, hh]
@@ -571,7 +571,7 @@ theorem Sync.scroll {K0 : Console} {t t' : VT} (s : Sync K0 t) {fg bg : UInt8}
       rw [ho']
       simp [Console.applyLog, Console.apply]
     refine ⟨by rw [e, f1, s1, hw]; exact s.w, by rw [e, f2, s2, hh]; exact s.h, by rw [e]; exact f3,
-      by rw [e, f4, s4]; exact s.outside, ?_, ?_⟩
+      by rw [e, f4, s4]; exact s.outside, ?_, ?_, ?_⟩
     · intro c hc
       rw [ho'] at hc
       rw [hw, hh]
@@ -698,7 +698,7 @@ theorem lf_spec {t : VT} (g : Geo t) :
       · rw [udo_eq g1 (by simp [syncScroll]) (by simpa [syncScroll] using g.w1)]
         intro K0 s
         refine s.scroll (fg := t.defaultFg) (bg := t.defaultBg) g.w1 g.h1 ?_ (by simp [syncScroll])
-          (by simp [syncScroll]) (by simp [syncScroll]) ?_
+          (by simp [syncScroll]) (by simp [syncScroll]) ?_ (by simp [syncScroll])
         · simp [syncScroll, emit_out, hcy, g.tw]
         · intro r c hr hc
           simp only [vcell, syncScroll, emit_data, emit_viewportWidth, emit_viewportY]
@@ -770,7 +770,7 @@ theorem lf_spec {t : VT} (g : Geo t) :
       · rw [udo_eq g1 (by simp [syncScroll]) (by simpa [syncScroll] using g.w1)]
         intro K0 s
         refine s.scroll (fg := t.defaultFg) (bg := t.defaultBg) g.w1 g.h1 ?_ (by simp [syncScroll])
-          (by simp [syncScroll]) (by simp [syncScroll]) ?_
+          (by simp [syncScroll]) (by simp [syncScroll]) ?_ (by simp [syncScroll])
         · simp [syncScroll, emit_out, hcy, g.tw]
         · intro r c hr hc
           simp only [vcell, syncScroll, emit_data, emit_viewportWidth, emit_viewportY]
@@ -1152,6 +1152,28 @@ theorem rowCalls_ok (d : Array UInt8) {w vy y h : Nat} (hy : 1 ≤ y ∧ y ≤ h
   obtain ⟨k, hk, rfl⟩ := hc
   exact ⟨by omega, by omega, hy.1, hy.2⟩
 
+theorem allRows_mem (d : Array UInt8) (w vy : Nat) : ∀ (n y : Nat) (out : List Call) (c : Call),
+    c ∈ allRows d w vy n y out → c ∈ out ∨ ∃ y' k, y ≤ y' ∧ y' < y + n ∧ k < w ∧
+      c = Call.write (cellAt d w (y' - 1 + vy) k).ch (cellAt d w (y' - 1 + vy) k).fg
+            (cellAt d w (y' - 1 + vy) k).bg (k + 1) y' := by
+  intro n
+  induction n with
+  | zero => intro y out c hc; exact Or.inl hc
+  | succ n ih =>
+    intro y out c hc
+    simp only [allRows] at hc
+    cases ih (y + 1) _ c hc with
+    | inl h =>
+      cases List.mem_append.1 h with
+      | inl h =>
+        simp only [rowCalls, List.mem_map, List.mem_reverse, List.mem_range] at h
+        obtain ⟨k, hk, rfl⟩ := h
+        exact Or.inr ⟨y, k, Nat.le_refl y, by omega, hk, rfl⟩
+      | inr h => exact Or.inl h
+    | inr h =>
+      obtain ⟨y', k, h1, h2, h3, h4⟩ := h
+      exact Or.inr ⟨y', k, by omega, by omega, h3, h4⟩
+
 /-- the whole redraw: afterwards lines `y-1 …` show the viewport, whatever was there before -/
 theorem allRows_apply (K0 : Console) (d : Array UInt8) {w vy : Nat} : ∀ (n y : Nat) (out : List Call),
     WF (K0.applyLog out) → (K0.applyLog out).w = w → 1 ≤ y → y + n = (K0.applyLog out).h + 1 →
@@ -1230,11 +1252,18 @@ theorem setState_spec {t : VT} (i : Inv t) (a : Bool) :
       · intro K0 s
         obtain ⟨b1, b2, b3, b4, b5, b6⟩ := allRows_apply K0 t.data (vy := t.viewportY) t.viewportHeight 1 t.out
           s.wf s.w (Nat.le_refl 1) (by rw [s.h]; omega)
-        refine ⟨b1, b2.trans s.h, b3, b4.trans s.outside, ?_, ?_⟩
+        refine ⟨b1, b2.trans s.h, b3, b4.trans s.outside, ?_, ?_, ?_⟩
         · intro c hc
           cases b5 c hc with
           | inl h => exact s.ok c h
           | inr h => rw [s.h] at h; exact h
+        · intro c hc
+          cases allRows_mem t.data t.viewportWidth t.viewportY t.viewportHeight 1 t.out c hc with
+          | inl h => exact s.cols c h
+          | inr h =>
+            obtain ⟨y', k, h1, h2, h3, rfl⟩ := h
+            have := g.vy
+            exact g.cols (y' - 1 + t.viewportY) k (by omega) h3
         · intro _ r c hr hc
           have := b6 r c (by rw [s.h]; exact hr) hc
           rw [this, if_pos (by omega)]
